@@ -218,26 +218,27 @@ Proof. exact drive_sends_all_any. Qed.
 From Minimq Require Import Exchange.
 
 (* ---- one whole QoS 1 exchange against the answering broker (mode 1: replies as MQTT prescribes), as ONE statement ----
-   On a quiescent healthy connection without keep-alive: publish() returns its handle with exactly the encoded PUBLISH on the wire;
+   On a quiescent healthy connection without keep-alive: publish() (QoS 1 or 2; `ack_head`: PUBACK resp. PUBREC) returns its handle with exactly the encoded PUBLISH on the wire;
    the broker reads that packet whole and answers with the PUBACK of its identifier; the next poll() reads the PUBACK, completes
    the handle (nothing retained any more), returns the quota slot and leaves the session quiescent with nothing to write. *)
-Theorem C16_publish_q1_is_sent_and_answered : forall w r s2 op ps,
+Theorem C16_publish_is_sent_and_answered : forall w r s2 op ps q,
   Hc w ->
   ob_ctl (s_ob (w_sess w)) = [] -> ob_rel (s_ob (w_sess w)) = [] -> ob_ret (s_ob (w_sess w)) = [] ->
   rt_ka_ms (s_rt (w_sess w)) = 0 -> rt_next_ping (s_rt (w_sess w)) = None -> rt_ping_timeout (s_rt (w_sess w)) = None ->
   w_broker w = 1 -> w_txbuf w = [] -> w_inq w = [] -> w_last_arrival w <= w_now w ->
   publish_middle (w_sess w) true r = (s2, MRetained op) ->
-  effective_qos (w_sess w) (pr_qos r) = Q1 -> pr_props r = PSlice ps -> op_pid op < 65536 ->
+  effective_qos (w_sess w) (pr_qos r) = q -> q <> Q0 -> pr_props r = PSlice ps -> op_pid op < 65536 ->
   exists w1 bs cap off e,
     op_publish FUEL r w = (w1, ODone (Some op)) /\
-    enc_publish cap (pub_request r Q1 (op_pid op)) = SOk off bs /\
+    enc_publish cap (pub_request r q (op_pid op)) = SOk off bs /\
     w_wire w1 = w_wire w ++ bs /\
-    w_inq w1 = [(w_now w, 64 :: [2] ++ u16_be (op_pid op))] /\
+    w_inq w1 = [(w_now w, ack_head q :: [2] ++ u16_be (op_pid op))] /\
     Hc w1 /\ s_reader (w_sess w1) = s_reader (w_sess w) /\ w_now w1 = w_now w /\
+    w_broker w1 = 1 /\ w_txbuf w1 = [] /\ w_last_arrival w1 = w_now w /\ rt_ka_ms (s_rt (w_sess w1)) = 0 /\
     rt_next_ping (s_rt (w_sess w1)) = None /\ rt_ping_timeout (s_rt (w_sess w1)) = None /\
     ob_ctl (s_ob (w_sess w1)) = [] /\ ob_rel (s_ob (w_sess w1)) = [] /\
     ob_ret (s_ob (w_sess w1)) = [sent_entry e] /\ re_pid e = op_pid op.
-Proof. exact publish_q1_is_sent_and_answered. Qed.
+Proof. exact publish_is_sent_and_answered. Qed.
 
 Theorem C16_qos1_exchange_completes : forall w r s2 op ps,
   Hc w ->
@@ -275,6 +276,53 @@ Theorem C16_exchange_hyps_met :
   effective_qos (w_sess ex_b1) (pr_qos ex_pub) = Q1 /\ pr_props ex_pub = PSlice [] /\ op_pid ex_op1 < 65536.
 Proof. exact exchange_hyps_met. Qed.
 
+From Minimq Require Import Exchange2.
+
+(* ---- and one whole QoS 2 exchange: publish(), poll() (PUBREC in, the retained PUBLISH dropped, PUBREL written and flushed, the
+   broker answers PUBCOMP), poll() (PUBCOMP in): nothing retained, nothing to release, the quota slot returned ---- *)
+Theorem C16_poll_pubrec_sends_pubrel : forall w pid e t,
+  Hc w -> pid < 65536 -> 4 <= rcap (rd w) -> rdata (rd w) = [] -> rplen (rd w) = None ->
+  ob_ctl (s_ob (w_sess w)) = [] -> ob_rel (s_ob (w_sess w)) = [] -> ob_ret (s_ob (w_sess w)) = [sent_entry e] -> re_pid e = pid ->
+  rt_ka_ms (s_rt (w_sess w)) = 0 -> rt_next_ping (s_rt (w_sess w)) = None -> rt_ping_timeout (s_rt (w_sess w)) = None ->
+  w_broker w = 1 -> w_txbuf w = [] -> w_inq w = [(t, 80 :: [2] ++ u16_be pid)] -> t <= w_now w -> w_last_arrival w <= w_now w ->
+  exists w',
+    op_poll FUEL w = (w', ODone None) /\ w_wire w' = w_wire w ++ rel_bytes pid 0 /\
+    w_inq w' = [(w_now w, 112 :: [2] ++ u16_be pid)] /\
+    Hc w' /\ rdata (rd w') = [] /\ rplen (rd w') = None /\ rcap (rd w') = rcap (rd w) /\ w_now w' = w_now w /\
+    ob_ctl (s_ob (w_sess w')) = [] /\ ob_ret (s_ob (w_sess w')) = [] /\ ob_rel (s_ob (w_sess w')) = [rel_entry pid SSent] /\
+    rt_ka_ms (s_rt (w_sess w')) = 0 /\ rt_next_ping (s_rt (w_sess w')) = None /\ rt_ping_timeout (s_rt (w_sess w')) = None /\
+    w_broker w' = 1 /\ w_txbuf w' = [] /\ w_last_arrival w' = w_now w /\
+    rt_quota (s_rt (w_sess w')) = rt_quota (s_rt (w_sess w)) /\ rt_maxquota (s_rt (w_sess w')) = rt_maxquota (s_rt (w_sess w)).
+Proof. exact poll_pubrec_sends_pubrel. Qed.
+
+Theorem C16_qos2_exchange_completes : forall w r s2 op ps,
+  Hc w ->
+  ob_ctl (s_ob (w_sess w)) = [] -> ob_rel (s_ob (w_sess w)) = [] -> ob_ret (s_ob (w_sess w)) = [] ->
+  rt_ka_ms (s_rt (w_sess w)) = 0 -> rt_next_ping (s_rt (w_sess w)) = None -> rt_ping_timeout (s_rt (w_sess w)) = None ->
+  w_broker w = 1 -> w_txbuf w = [] -> w_inq w = [] -> w_last_arrival w <= w_now w ->
+  rdata (rd w) = [] -> rplen (rd w) = None -> 4 <= rcap (rd w) ->
+  publish_middle (w_sess w) true r = (s2, MRetained op) ->
+  effective_qos (w_sess w) (pr_qos r) = Q2 -> pr_props r = PSlice ps -> op_pid op < 65536 ->
+  exists w1 w2 w3 bs cap off,
+    op_publish FUEL r w = (w1, ODone (Some op)) /\
+    enc_publish cap (pub_request r Q2 (op_pid op)) = SOk off bs /\ w_wire w1 = w_wire w ++ bs /\
+    op_poll FUEL w1 = (w2, ODone None) /\ w_wire w2 = w_wire w1 ++ rel_bytes (op_pid op) 0 /\
+    op_poll FUEL w2 = (w3, ODone None) /\ w_live w3 = true /\ w_inq w3 = [] /\
+    ob_ctl (s_ob (w_sess w3)) = [] /\ ob_rel (s_ob (w_sess w3)) = [] /\ ob_ret (s_ob (w_sess w3)) = [] /\
+    next_step (s_ob (w_sess w3)) = None /\
+    rt_quota (s_rt (w_sess w3)) = N.min (N.min (rt_quota (s_rt (w_sess w1)) + 1) 65535) (rt_maxquota (s_rt (w_sess w1))).
+Proof. exact qos2_exchange_completes. Qed.
+
+Theorem C16_exchange2_example :
+  publish_middle (w_sess ex_b1) true ex_pubq2 = (fst (publish_middle (w_sess ex_b1) true ex_pubq2), MRetained ex_op2) /\
+  effective_qos (w_sess ex_b1) (pr_qos ex_pubq2) = Q2 /\
+  snd (op_publish FUEL ex_pubq2 ex_b1) = ODone (Some ex_op2) /\
+  w_wire ex_q2a = w_wire ex_b1 ++ [52; 7; 0; 1; 117; 0; 1; 0; 9] /\ w_inq ex_q2a = [(0, [80; 2; 0; 1])] /\
+  snd (op_poll FUEL ex_q2a) = ODone None /\ w_wire ex_q2b = w_wire ex_q2a ++ [98; 3; 0; 1; 0] /\ w_inq ex_q2b = [(0, [112; 2; 0; 1])] /\
+  snd (op_poll FUEL ex_q2b) = ODone None /\ ob_ret (s_ob (w_sess ex_q2c)) = [] /\ ob_rel (s_ob (w_sess ex_q2c)) = [] /\
+  rt_quota (s_rt (w_sess ex_q2c)) = rt_quota (s_rt (w_sess ex_b1)).
+Proof. exact exchange2_example. Qed.
+
 Print Assumptions C16_poll_never_returns_idle.
 Print Assumptions C16_sent_entries_not_resent.
 Print Assumptions C16_write_step_advances.
@@ -302,7 +350,10 @@ Print Assumptions C16_healthy_example.
 Print Assumptions C16_poll_sends_all.
 Print Assumptions C16_drive_writes_owed.
 Print Assumptions C16_drive_sends_all_any_timer.
-Print Assumptions C16_publish_q1_is_sent_and_answered.
+Print Assumptions C16_publish_is_sent_and_answered.
 Print Assumptions C16_qos1_exchange_completes.
 Print Assumptions C16_exchange_example.
 Print Assumptions C16_exchange_hyps_met.
+Print Assumptions C16_poll_pubrec_sends_pubrel.
+Print Assumptions C16_qos2_exchange_completes.
+Print Assumptions C16_exchange2_example.
